@@ -12,6 +12,7 @@ RequestName around the own rules.  Oracle: pyv/models/policy.py (the manual's
 evaluation, last match wins, default deny); undocumented cases are UNSPEC and
 not judged."""
 import itertools
+import os
 
 from .. import refdbus as R
 from .. import busbox as B
@@ -23,11 +24,11 @@ from ..registry import claim
 
 claim('C06', 'model_checking',
       'exhaustive enumeration of policy configurations (rule lists x contexts x base policies), each a fresh real bus probed with a fixed message/name-request set, judged by a transcription of the manual\'s rule evaluation',
-      'Every ordered list of <= k atomic rules over the documented attributes, in every assignment to the contexts default / user / mandatory, over an open and a closed base policy, is loaded by a real in-process bus; '
+      'Every ordered list of <= k atomic rules over the documented attributes, in every assignment to the contexts default / group / user / mandatory, over an open and a closed base policy, is loaded by a real in-process bus, both at start-up and by a reload from an allow-everything configuration with the connections (and some name ownerships and queue positions) already in place; '
       'a registry state with a multi-name receiver, a queued owner and prefix-related names is built and ~20 probes per configuration are sent by a sender of another uid. Delivery, AccessDenied errors and RequestName results must equal '
-      'the documented evaluation; a denied message must reach nobody.',
+      'the documented evaluation; a denied message must reach nobody; a reply from a third connection carrying the serial of somebody else\'s outstanding call is not a requested reply.',
       'Trusts pyv/models/policy.py as the reading of doc/dbus-daemon.1.xml.in. Cases the manual leaves open (rules naming member/path/error against messages lacking the field, non-prefix destination rules against a queued-only owner, '
-      'destination rules on broadcasts before a recipient is known, group contexts) are UNSPEC and only counted. at_console, SELinux and AppArmor are outside this build.',
+      'destination rules on broadcasts before a recipient is known, the order among several group contexts) are UNSPEC and only counted. at_console, SELinux and AppArmor are outside this build.',
       'DESIGN.md section 4 C06')
 
 S_UID = 1000
@@ -139,6 +140,16 @@ class PolicySession(BusSession):
         return B.make_config(bustype=None) if self.start_permissive else self.target_config()
 
 
+def _groups_of(uid):
+    """The groups the bus will find for a uid (getgrouplist), so that <policy group=...> contexts can be judged."""
+    import pwd
+    try:
+        pw = pwd.getpwuid(uid)
+        return set(os.getgrouplist(pw.pw_name, pw.pw_gid))
+    except (KeyError, OSError):
+        return set()
+
+
 def expect_reply(sess, l, member, body):
     s, rep = sess.method(l, member, body)
     return rep is not None and rep.kind == R.MT_RETURN
@@ -204,7 +215,7 @@ def probe_config(base, test, family, reload=False):
              'S': P.Peer(primary={'s.name', sess.uname['S'].decode()}),
              'bus': P.Peer(is_bus=True)}
     uid = {'R': 0, 'Q': 0, 'S': S_UID}
-    gids = {0: set(), S_UID: set()}
+    gids = {0: _groups_of(0), S_UID: _groups_of(S_UID)}
     tok = [0]
 
     def body():
@@ -289,12 +300,12 @@ def probe_config(base, test, family, reload=False):
         s0 = ser(S)
         sess.send(S, R.bus_call(s0, 'GetId'))
         rep = sess.take_reply(S, s0)
-        sd = P.can_send(rules, S_UID, set(), P.Msg(1, 'org.freedesktop.DBus', 'GetId', '/org/freedesktop/DBus'), peers['bus'])
+        sd = P.can_send(rules, S_UID, gids[S_UID], P.Msg(1, 'org.freedesktop.DBus', 'GetId', '/org/freedesktop/DBus'), peers['bus'])
         if sd is P.UNSPEC:
             stats['unspec'] += 1
         else:
             # the reply from the driver must also be receivable by S
-            rd = P.can_receive(rules, S_UID, set(), P.Msg(2, requested_reply=True), peers['bus'])
+            rd = P.can_receive(rules, S_UID, gids[S_UID], P.Msg(2, requested_reply=True), peers['bus'])
             if rd is P.UNSPEC:
                 stats['unspec'] += 1
             elif sd and rd:
@@ -307,7 +318,7 @@ def probe_config(base, test, family, reload=False):
     if family == 'own':
         for name in ('a.x', 'a.x.y', 'a.xy', 'a.y', 'b.c.d', 'b.c', 'z.z'):
             stats['probes'] += 1
-            want = P.can_own(rules, S_UID, set(), name)
+            want = P.can_own(rules, S_UID, gids[S_UID], name)
             before = sess.impl_key()
             s0, rep = sess.method(S, 'RequestName', [R.S(name), R.U(4)])
             if want is P.UNSPEC:
@@ -374,9 +385,11 @@ def build_tasks(tier):
     send = atomic_send_rules()
     recv = atomic_recv_rules()
     own = atomic_own_rules()
-    ctx_send = ['default', 'user:%d' % S_UID, 'mandatory']
-    ctx_recv = ['default', 'user:0', 'mandatory']
-    ctx_own = ['default', 'user:%d' % S_UID]
+    gs = sorted(_groups_of(S_UID))
+    ctx_send = ['default', 'user:%d' % S_UID, 'mandatory'] + (['group:%d' % gs[0]] if gs else [])
+    g0 = sorted(_groups_of(0))
+    ctx_recv = ['default', 'user:0', 'mandatory'] + (['group:%d' % g0[0]] if g0 else [])
+    ctx_own = ['default', 'user:%d' % S_UID] + (['group:%d' % gs[0]] if gs else [])
     add('send', 'closed-send', rule_lists(send, ctx_send, 2, thin))
     add('send', 'open', rule_lists(send, ctx_send, 2, thin))
     add('recv', 'closed-recv', rule_lists(recv, ctx_recv, 2, thin))
